@@ -169,7 +169,9 @@ fn start_acceptor(cfg: &Value, n: usize, maxpdu: Option<u32>) -> (std::net::Sock
         .ae_title(j_str(&cfg["aet"]).to_string())
         .promiscuous(cfg["promiscuous"].as_bool().unwrap())
         .read_timeout(Duration::from_secs(20));
-    if let Some(m) = maxpdu {
+    // the acceptor's own maximum PDU length: explicit argument, else the case's cfg.maxpdu
+    let own = maxpdu.or_else(|| cfg.get("maxpdu").and_then(u32_of));
+    if let Some(m) = own {
         opts = opts.max_pdu_length(m);
     }
     for a in j_arr(&cfg["abs"]) {
@@ -280,12 +282,23 @@ fn compare(exp: &Value, obs: &Value, view: &Value) -> Option<String> {
 fn case_class(c: &Value) -> String {
     let req = &c["req"];
     let pad = j_arr(&req["pcs"]).iter().any(|pc| pc["abs"]["pad"] != 0 || j_arr(&pc["tss"]).iter().any(|t| t["pad"] != 0));
+    let ml = if j_str(&c["kind"]) == "maxlen" {
+        let m = &req["maxlen"];
+        format!(
+            " maxlen={} acceptor-own-max={}",
+            if j_arr(m).is_empty() { "absent" } else if *m == json!([0, 0]) { "zero" } else { "value" },
+            if c["cfg"].get("maxpdu").map(|v| j_arr(v).is_empty()).unwrap_or(true) { "default" } else { "configured" }
+        )
+    } else {
+        String::new()
+    };
     format!(
-        "{} promiscuous={} cfgts={}{}",
+        "{} promiscuous={} cfgts={}{}{}",
         j_str(&c["kind"]),
         c["cfg"]["promiscuous"],
         if j_arr(&c["cfg"]["tss"]).is_empty() { "none" } else { "some" },
-        if pad { " padded-uid" } else { "" }
+        if pad { " padded-uid" } else { "" },
+        ml
     )
 }
 
@@ -390,7 +403,13 @@ fn run_c28random(args: &std::collections::HashMap<String, String>) {
             }
         }
         let prom = nabs == 0 || rng.below(3) == 0;
-        cfgs.push(json!({"abs": abs, "tss": tss, "promiscuous": prom, "aet": "THIS-SCP",
+        let own = match k % 4 {
+            0 => json!([]),
+            1 => json!([0, 4096]),
+            2 => json!([16, 0]),
+            _ => halves(1018 + rng.below(200_000) as u32),
+        };
+        cfgs.push(json!({"abs": abs, "tss": tss, "promiscuous": prom, "aet": "THIS-SCP", "maxpdu": own,
                          "access": if k % 3 == 2 { "called" } else { "any" }, "appctx": "1.2.840.10008.3.1.1.1", "pv": 1}));
     }
     let mut w = NdjsonWriter::create(&args["out"]);
@@ -409,7 +428,7 @@ fn run_c28random(args: &std::collections::HashMap<String, String>) {
                 pcs.push(json!({"id": id, "abs": {"u": *rng.pick(&abs_pool), "pad": if rng.below(5) == 0 { 1 } else { 0 }}, "tss": tss}));
             }
             let maxlen = match rng.below(6) {
-                0 => json!([]),
+                0 | 5 => json!([]),
                 1 => json!([0, 0]),
                 2 => halves(u32::MAX - rng.below(9) as u32),
                 _ => halves(rng.next_u64() as u32 >> rng.below(20)),
